@@ -101,7 +101,7 @@ Thin(seqOfH, m) == SelectSeq([i \in 1..Len(seqOfH) |-> [h |-> seqOfH[i], i |-> i
 Vals1 == IF Tier = "quick" THEN { FromNat(7), Sub(Pow2(256), One) } ELSE { FromNat(7), Add(RMod, FromNat(7)), Sub(Pow2(256), One) }
 Ch1 == [1..L3 -> SlotChoices(Vals1)]
 FixedVals(K) == { K.pat[i][2] : i \in { jj \in 1..L3 : W!IsFixed(K.pat[jj]) } }
-Ch2(P, K) == { ch \in [1..L3 -> SlotChoices({ FromNat(9), Add(RMod, FromNat(9)) } \cup FixedVals(K))] : W!PermittedQual(P, K, Spec(ListOf(ch, 1))) }
+Ch2(P, K) == { ch \in [1..L3 -> SlotChoices({ FromNat(9), Add(RMod, FromNat(9)), Add(Pow2(128), FromNat(7)) } \cup FixedVals(K))] : W!PermittedQual(P, K, Spec(ListOf(ch, 1))) }
 Key1(P, op1, ch1, f1) == IF op1 = "keygen" THEN W!KeyGen(P, Spec(ListOf(ch1, 1)), f1, Rand(0)) ELSE W!NdKeyGen(P, Spec(ListOf(ch1, 1)), f1)
 Key2(P, K1, op2, ch2, f2) == IF op2 = "qualify" THEN W!Qualify(P, K1, Spec(ListOf(ch2, 1)), f2, Rand(4)) ELSE W!NdQualify(P, K1, Spec(ListOf(ch2, 1)), f2)
 NoCh == [i \in 1..L3 |-> <<"U">>]
